@@ -1,0 +1,25 @@
+// Verification hooks (cargo feature `verif-hooks`); not part of the protocol.
+
+//! Canonical digest of a [`ParentReadyState`].
+
+use std::hash::{Hash, Hasher};
+
+use super::{IsReady, ParentReadyState};
+
+impl ParentReadyState {
+    pub(in crate::consensus::pool) fn verif_digest<H: Hasher>(&self, h: &mut H) {
+        self.skip.hash(h);
+        for hash in &self.notar_fallbacks {
+            hash.hash(h);
+        }
+        match &self.is_ready {
+            IsReady::NotReady(waiter) => (0u8, waiter.is_some()).hash(h),
+            IsReady::Ready(ids) => {
+                1u8.hash(h);
+                for id in ids {
+                    id.hash(h);
+                }
+            }
+        }
+    }
+}
